@@ -59,6 +59,8 @@ class Ctx:
         os.makedirs(self.work)
         # OpenMDAO writes its per-problem output directories (<name>_out) under OPENMDAO_WORKDIR
         os.environ['OPENMDAO_WORKDIR'] = self.work
+        # replay files describe the violations of the latest run only
+        shutil.rmtree(os.path.join(VERIF, 'replays', pid), ignore_errors=True)
         self.states = 0
         self.transitions = 0
         self.tlc_runs = []
